@@ -208,32 +208,10 @@ class SStr:
         return sjoin(new, parts)
 
     def upper(self):
-        out = []
-        for c in self.items:
-            if _real_isinstance(c, _real_int):
-                u = chr(c).upper()
-                if _real_len(u) != 1:
-                    raise Unsupported("upper() changing length")
-                out.append(ord(u))
-            else:
-                if not E().decide(c < 128):
-                    raise Unsupported("upper() on symbolic non-ASCII text")
-                out.append(z3.If(z3.And(c >= 97, c <= 122), c - 32, c))
-        return mk_str(out)
+        return _case_map(self.items, True)
 
     def lower(self):
-        out = []
-        for c in self.items:
-            if _real_isinstance(c, _real_int):
-                u = chr(c).lower()
-                if _real_len(u) != 1:
-                    raise Unsupported("lower() changing length")
-                out.append(ord(u))
-            else:
-                if not E().decide(c < 128):
-                    raise Unsupported("lower() on symbolic non-ASCII text")
-                out.append(z3.If(z3.And(c >= 65, c <= 90), c + 32, c))
-        return mk_str(out)
+        return _case_map(self.items, False)
 
     def isdigit(self):
         if not self.items:
@@ -254,6 +232,56 @@ class SStr:
         if enc not in ("utf-8", "utf8"):
             raise Unsupported(f"encode({encoding!r})")
         return V.mk_bytes(utf8_encode(self.items, errors))
+
+
+_SPECIAL_CASE = {}
+
+
+def _special(upper):
+    """non-ASCII code points whose upper()/lower() contains an ASCII character or is not exactly
+    one code point - the only ones for which an opaque non-ASCII result would be wrong"""
+    t = _SPECIAL_CASE.get(upper)
+    if t is None:
+        t = {}
+        for cp in range(128, 0x110000):
+            if 0xD800 <= cp <= 0xDFFF:
+                continue
+            r = chr(cp).upper() if upper else chr(cp).lower()
+            if _real_len(r) != 1 or ord(r) < 128:
+                t[cp] = [ord(x) for x in r]
+        _SPECIAL_CASE[upper] = t
+    return t
+
+
+def _case_map(items, upper):
+    """str.upper() / str.lower(): exact for ASCII and for the few non-ASCII code points that map
+    into ASCII or change length; any other non-ASCII code point maps to an opaque non-ASCII one
+    (enough for comparisons with ASCII keywords; a model relying on it must reproduce concretely)."""
+    e = E()
+    out = []
+    for c in items:
+        if _real_isinstance(c, _real_int):
+            r = chr(c).upper() if upper else chr(c).lower()
+            out.extend(ord(x) for x in r)
+            continue
+        if e.decide(c < 128):
+            if upper:
+                out.append(z3.If(z3.And(c >= 97, c <= 122), c - 32, c))
+            else:
+                out.append(z3.If(z3.And(c >= 65, c <= 90), c + 32, c))
+            continue
+        done = False
+        for cp, res in _special(upper).items():
+            if e.decide(c == cp):
+                out.extend(res)
+                done = True
+                break
+        if done:
+            continue
+        t = e.fresh("case")
+        e.axiom(z3.And(t >= 128, t <= 0x10FFFF))
+        out.append(t)
+    return mk_str(out)
 
 
 _WS = [9, 10, 11, 12, 13, 28, 29, 30, 31, 32, 133, 160, 5760] + list(range(8192, 8203)) + [
